@@ -87,6 +87,36 @@ Theorem c38_failed_operation_changes_nothing :
 Proof. exact failed_step_unchanged. Qed.
 Print Assumptions c38_failed_operation_changes_nothing.
 
+(** save() failing (the wallet file cannot be written) at any operations of the history: an
+    operation whose save fails is the identity on the client and on the file and reports an error;
+    no failing operation of any kind changes anything; and the property holds after every history
+    with save failures anywhere in it (so what a later successful save writes is the state before
+    the failure plus the later operations only). *)
+Theorem c38_failed_save_is_identity :
+  forall (key blob : Type) (enc : ectx -> string -> key -> blob) (dec : ectx -> string -> blob -> option key)
+         (w : wallet blob) (o : op key),
+    reaches_save key blob enc dec w o = true -> step_sf key blob enc dec true w o = (w, ESave).
+Proof. exact failed_save_is_identity. Qed.
+Print Assumptions c38_failed_save_is_identity.
+
+Theorem c38_failed_operation_changes_nothing_with_save_failures :
+  forall (key blob : Type) (enc : ectx -> string -> key -> blob) (dec : ectx -> string -> blob -> option key)
+         (b : bool) (w : wallet blob) (o : op key),
+    is_success key (snd (step_sf key blob enc dec b w o)) = false -> fst (step_sf key blob enc dec b w o) = w.
+Proof. exact failed_step_sf_unchanged. Qed.
+Print Assumptions c38_failed_operation_changes_nothing_with_save_failures.
+
+Theorem c38_wallet_persists_with_save_failures :
+  forall (key blob : Type) (enc : ectx -> string -> key -> blob) (dec : ectx -> string -> blob -> option key),
+    ideal_cipher enc dec ->
+    forall (prm : scrypt) (ops : list (bool * op key)),
+      caller_ok_sf key blob enc dec (init blob prm) ops ->
+      wallet_property key blob dec
+        (fst (fst (run_sf key blob enc dec (init blob prm) [] ops)))
+        (snd (fst (run_sf key blob enc dec (init blob prm) [] ops))).
+Proof. exact wallet_persists_sf. Qed.
+Print Assumptions c38_wallet_persists_with_save_failures.
+
 (** What the code must contain for the above (read from the source by the translator): NewAccount,
     ChangePassword and getAccount all pass the wallet's scrypt parameters; addAccountData refuses an
     address the wallet holds; ChangePassword refuses an empty new password. *)
